@@ -27,6 +27,8 @@ const idpIssuer = "https://idp.example"
 
 type IdP struct {
 	mu sync.Mutex
+	// Issuer is the provider URL (scripted transport: https://idp.example; loopback server: http://127.0.0.1:port)
+	Issuer string
 	// Mode decides how /userinfo answers: honour | unknown | error500 | transport
 	Mode string
 	// Revoked access tokens (401)
@@ -51,17 +53,43 @@ type CodeBehaviour struct {
 var theIdP *IdP
 
 func (p *IdP) RoundTrip(r *http.Request) (*http.Response, error) {
-	p.mu.Lock()
-	defer p.mu.Unlock()
-	p.Log = append(p.Log, r.Method+" "+r.URL.String())
 	if r.URL.Host != "idp.example" {
 		return nil, errors.New("scripted transport: unknown host " + r.URL.Host)
 	}
-	js := func(code int, v any) (*http.Response, error) {
-		b, _ := json.Marshal(v)
-		return &http.Response{StatusCode: code, Status: http.StatusText(code), Header: http.Header{"Content-Type": {"application/json"}},
-			Body: io.NopCloser(bytes.NewReader(b)), Request: r, Proto: "HTTP/1.1", ProtoMajor: 1, ProtoMinor: 1}, nil
+	code, v, err := p.respond(r)
+	if err != nil {
+		return nil, err
 	}
+	b, _ := json.Marshal(v)
+	return &http.Response{StatusCode: code, Status: http.StatusText(code), Header: http.Header{"Content-Type": {"application/json"}},
+		Body: io.NopCloser(bytes.NewReader(b)), Request: r, Proto: "HTTP/1.1", ProtoMajor: 1, ProtoMinor: 1}, nil
+}
+
+// ServeHTTP serves the same scripted answers over a real (loopback) socket.
+func (p *IdP) ServeHTTP(w http.ResponseWriter, r *http.Request) {
+	code, v, err := p.respond(r)
+	if err != nil {
+		// transport error: drop the connection
+		if hj, ok := w.(http.Hijacker); ok {
+			if c, _, e := hj.Hijack(); e == nil {
+				c.Close()
+				return
+			}
+		}
+		w.WriteHeader(502)
+		return
+	}
+	w.Header().Set("Content-Type", "application/json")
+	w.WriteHeader(code)
+	json.NewEncoder(w).Encode(v)
+}
+
+func (p *IdP) respond(r *http.Request) (int, any, error) {
+	p.mu.Lock()
+	defer p.mu.Unlock()
+	p.Log = append(p.Log, r.Method+" "+r.URL.String())
+	idpIssuer := p.Issuer
+	js := func(code int, v any) (int, any, error) { return code, v, nil }
 	switch r.URL.Path {
 	case "/.well-known/openid-configuration":
 		return js(200, map[string]any{
@@ -81,7 +109,7 @@ func (p *IdP) RoundTrip(r *http.Request) (*http.Response, error) {
 		p.UserinfoCalls[tok]++
 		switch p.Mode {
 		case "transport":
-			return nil, errors.New("scripted transport: connection refused")
+			return 0, nil, errors.New("scripted transport: connection refused")
 		case "error500":
 			return js(500, map[string]any{"error": "server_error"})
 		case "unknown":
@@ -122,7 +150,7 @@ func InstallIdP() *IdP {
 	if err != nil {
 		infra("rsa: %v", err)
 	}
-	p := &IdP{Mode: "honour", Revoked: map[string]bool{}, UserinfoCalls: map[string]int{}, Key: key, Codes: map[string]CodeBehaviour{}}
+	p := &IdP{Issuer: idpIssuer, Mode: "honour", Revoked: map[string]bool{}, UserinfoCalls: map[string]int{}, Key: key, Codes: map[string]CodeBehaviour{}}
 	http.DefaultTransport = p
 	http.DefaultClient = &http.Client{Transport: p}
 	provider, err := oidc.NewProvider(context.Background(), idpIssuer)
